@@ -194,6 +194,8 @@ def gen_thread_ops(rng, n, classes, allow_facade):
             op = dict(op="construct", **gen_ctor(rng, name))
             if rng.random() < 0.06 and CLASSES[name][4]:
                 op["blocksize"] = 0          # a construction that is refused
+            if name in ("ExtendedCopy4", "ExtendedCopy5") and rng.random() < 0.2:
+                op["junk_seg_key"] = rng.choice(["bogus", "blocks", "x"])      # ... refused because of a misspelt descriptor key
             slots.append(name)
             ops.append(op)
         elif r < 0.47 and slots:
@@ -298,6 +300,8 @@ def gen_contention(rng, idx):
         n = rng.choice([1, 2, 3])
         for j in range(n):
             ops.append(dict(op="construct", thread=t, **gen_ctor(rng, rng.choice(pool))))
+            if ops[-1]["cls"] in ("ExtendedCopy4", "ExtendedCopy5") and rng.random() < 0.15:
+                ops[-1]["junk_seg_key"] = "bogus"
             if rng.random() < 0.3:
                 ops.append(dict(op="construct_twice", thread=t, **gen_ctor(rng, rng.choice(pool))))     # the same argument objects used for two commands
             if rng.random() < 0.4:
@@ -370,6 +374,11 @@ def _shaped(name, rng, big):
                       "inline_data": {"$b": [7 if big else 8, 6 if big else 1]}}
         if big:
             spec["kw"]["segment_descriptor_list"][1]["destination_cscd_descriptor_id" if five else "destination_target_descriptor_id"] = 1
+        # descriptor types given by name (resolved through the library's name tables: shared, possibly lazily built, state)
+        for d in spec["kw"]["cscd_descriptor_list" if five else "target_descriptor_list"]:
+            d["descriptor_type_code"] = F.TGT_NAME[5 if five else 4]
+        for d in spec["kw"]["segment_descriptor_list"]:
+            d["descriptor_type_code"] = F.SEG_NAME
     elif name == "PersistentReserveOut":
         tid = {"protocol_id": 5, "iscsi_name": "iqn.2026-10.verif:%s" % ("b" * (9 if big else 1))}
         spec["args"] = [0]
@@ -449,6 +458,11 @@ def construct(spec, blocksize=512, prebuilt=None):
     else:
         args = F.real_args(spec["args"])
         kw = F.real_args(spec["kw"])
+    if spec.get("junk_seg_key"):
+        segs = kw.setdefault("segment_descriptor_list", [])
+        if not segs:
+            segs.append(F.real_args((F._spc5 if name == "ExtendedCopy5" else F._copy)(F.SEG_B2B)))
+        segs[-1][spec["junk_seg_key"]] = 1
     op = _opcode(name)
     if name == "PersistentReserveIn":
         return cls(op, args[0], **kw)
